@@ -41,3 +41,60 @@ Theorem C15_bound :
     get_password_derived_key CS input blind ev (Some f) = Ok (hkdf_extract (hash CS) None (y ++ z)).
 Proof. exact @ksf_bound. Qed.
 Print Assumptions C15_bound.
+
+(* ---------------------------------------------------------------- end to end: what an accepted login says about the KSF
+   One statement for C02, C05 (credential identifier), C14 and C15.  After an honest registration with (pw, cred, ksf),
+   if a client that types pw' and stretches with ksf' accepts the response of the honest server evaluating under cred',
+   then pw' = pw, cred' = cred and the two stretching functions (the caller's instance, or the suite's default when
+   absent) give the SAME value on the OPRF output of this password - or a collision is exhibited (HMAC, hash,
+   HKDF-Expand, client key derivation, Diffie-Hellman in the private key, OPRF key derivation).  Hence the stretched
+   value is bound into everything the login checks: parameters that stretch the OPRF output to another value never log
+   in.  [action_free]: the scalar action of the OPRF group is free (proved for the toy suite). *)
+From OKE Require Import Hkdf Voprf Laws Bad KeySeparation AcceptedLogin.
+Theorem C15_accepted_login_used_the_registrations_password_identifier_and_stretching :
+  forall E Sc Pk Sk (CS : Suite E Sc Pk Sk), HashLaws (hash CS) -> GroupLaws CS ->
+  (forall a b : Sk, {a = b} + {a <> b}) ->
+  (forall P a b, ve CS P -> vs CS a -> vs CS b -> o_mul (oprf CS) P a = o_mul (oprf CS) P b -> a = b) ->
+  forall tape setup t1 pw creg rq t2 cred rr ids ksf upload ek spk t3 pw' cred' ksf' clog ke1 t4 ctx slog ke2 t5 dbg out,
+    ve CS (o_h2g (oprf CS) pw (dst_hash_to_group (oprf CS))) ->
+    ve CS (o_h2g (oprf CS) pw' (dst_hash_to_group (oprf CS))) ->
+    server_setup_new CS tape = Ok (setup, t1) ->
+    client_registration_start CS t1 pw = Ok (creg, rq, t2) ->
+    server_registration_start CS setup rq cred = Ok rr ->
+    client_registration_finish CS creg t2 pw rr ids ksf = Ok (upload, ek, spk, t3) ->
+    client_login_start CS t3 pw' = Ok (clog, ke1, t4) ->
+    server_login_start CS (private_key_ops (ke CS)) t4 setup (Some (server_registration_finish upload)) ke1 cred' ctx ids
+      = Ok (slog, ke2, t5, dbg) ->
+    client_login_finish CS clog pw' ke2 ctx ids ksf' = Ok out ->
+    (pw' = pw /\ cred' = cred /\
+     exists y z, apply_ksf CS ksf y = Some z /\ apply_ksf CS ksf' y = Some z /\
+                 voprf_finalize (hash CS) (oprf CS) (crs_blind creg) pw (rr_eval rr) = Ok y)
+    \/ BadS CS \/ BadOprfDerive CS.
+Proof. exact @accepted_login_used_the_registrations_secrets. Qed.
+Print Assumptions C15_accepted_login_used_the_registrations_password_identifier_and_stretching.
+
+
+(* at the 20 concrete suites: CurveLaws (and, inside the statement, the free scalar action) are the only hypotheses *)
+From OKE Require Import CodecsConcrete GroupSplit Concrete20.
+
+Definition C15_accepted_login_used_the_registrations_password_identifier_and_stretching_statement {E Sc Pk Sk} (CS : Suite E Sc Pk Sk) : Prop :=
+  (forall a b : Sk, {a = b} + {a <> b}) ->
+  (forall P a b, ve CS P -> vs CS a -> vs CS b -> o_mul (oprf CS) P a = o_mul (oprf CS) P b -> a = b) ->
+  forall tape setup t1 pw creg rq t2 cred rr ids ksf upload ek spk t3 pw' cred' ksf' clog ke1 t4 ctx slog ke2 t5 dbg out,
+    ve CS (o_h2g (oprf CS) pw (dst_hash_to_group (oprf CS))) ->
+    ve CS (o_h2g (oprf CS) pw' (dst_hash_to_group (oprf CS))) ->
+    server_setup_new CS tape = Ok (setup, t1) ->
+    client_registration_start CS t1 pw = Ok (creg, rq, t2) ->
+    server_registration_start CS setup rq cred = Ok rr ->
+    client_registration_finish CS creg t2 pw rr ids ksf = Ok (upload, ek, spk, t3) ->
+    client_login_start CS t3 pw' = Ok (clog, ke1, t4) ->
+    server_login_start CS (private_key_ops (ke CS)) t4 setup (Some (server_registration_finish upload)) ke1 cred' ctx ids
+      = Ok (slog, ke2, t5, dbg) ->
+    client_login_finish CS clog pw' ke2 ctx ids ksf' = Ok out ->
+    (pw' = pw /\ cred' = cred /\
+     exists y z, apply_ksf CS ksf y = Some z /\ apply_ksf CS ksf' y = Some z /\
+                 voprf_finalize (hash CS) (oprf CS) (crs_blind creg) pw (rr_eval rr) = Ok y)
+    \/ BadS CS \/ BadOprfDerive CS.
+Theorem C15_accepted_login_used_the_registrations_password_identifier_and_stretching_at_each_of_the_20_suites : all_suites (fun _ _ _ _ CS => CurveLaws CS -> C15_accepted_login_used_the_registrations_password_identifier_and_stretching_statement CS).
+Proof. apply at_the_20_suites. exact C15_accepted_login_used_the_registrations_password_identifier_and_stretching. Qed.
+Print Assumptions C15_accepted_login_used_the_registrations_password_identifier_and_stretching_at_each_of_the_20_suites.
